@@ -130,6 +130,8 @@ def scale(a, c):
 MALFORMED = [
     # unknown symbol
     "Xx2", "A", "Zz3O", "h2O", "H2o", "Uuo", "CaCO3 6H2Q",
+    # an element's *name* is not a symbol of the table (nor is a longer word that merely starts with one)
+    "Tin", "Iron2O3", "Neutron", "Deuterium2O", "Lead", "Gold", "Ca(LeadO3)2", "Hydrogen2O", "Sodium{+}", "Heh",
     # undefined isotope / charge
     "Fe[99]", "C[14]", "Ne{+}", "Fe{9+}", "H[1]{2+}", "O{3-}", "He[3]",
     # D and T are isotopes already: a further isotope tag names nothing
